@@ -183,23 +183,6 @@ def correspond(ctx):
     # (c) DAG-shaped inputs (python only) ------------------------------------------------------------------------
     from lark import Tree
     for _ in range(ctx.scale(60, 600)):
-        shared = sl.to_lark(('T', rng.choice(RULE_POOL[:3]), tuple(random_tree(rng, 3) for _ in range(rng.randint(0, 3)))))
-        rules = [n for n in RULE_POOL if n != '_x' and rng.random() < 0.55]
-        toks = [k for k in TOK_POOL if rng.random() < 0.5]
-        vals = []
-        for b in BASES:
-            sh = sl.to_lark(sl.stree_of(shared))
-            root = Tree('start', [sh, Tree('a', [sh, sl.to_lark(random_tree(rng, 3))]), sh])
-            try:
-                vals.append(sl.value_of(make_T(b, rules, toks, 'plain')().transform(root)))
-            except Exception as ex:
-                vals.append(('exc', repr(ex)[:100]))
-            if b == BASES[0]:
-                first_root = sl.stree_of(root)
-        # the random third child differs between iterations: rebuild deterministic comparison on the same shape
-        ctx.count('dag', key=None, nontrivial=False)
-    # deterministic DAG comparison
-    for _ in range(ctx.scale(60, 600)):
         sub = ('T', rng.choice(RULE_POOL[:3]), tuple(random_tree(rng, 3) for _ in range(rng.randint(0, 3))))
         other = random_tree(rng, 3)
         rules = [n for n in RULE_POOL if n != '_x' and rng.random() < 0.55]
@@ -296,9 +279,9 @@ def correspond(ctx):
            'variant': 'plain', 'rules': ['a'], 'toks': [], 'choices': [0]}
     plain = Lark(g, parser='lalr')
     bad, emb, post = embedded_vs_posthoc(wit, plain, plain.parse('ab'))
-    ctx.count('exotic-embedded-inplace', key='F20')
+    ctx.count('exotic-embedded-inplace', key='F27')
     if bad:
-        ctx.violation('embedded-vs-posthoc', wit, True, bad, key='F20:embedded-Transformer_InPlace-callback-gets-Tree')
+        ctx.violation('embedded-vs-posthoc', wit, True, bad, key='F27:embedded-Transformer_InPlace-callback-gets-Tree')
 
 
 def embedded_vs_posthoc(w, plain=None, tree=None):
